@@ -1,6 +1,7 @@
 import Got.Drv.Common
 import Got.Model.Sort
 import Got.Model.SortUnique
+import Got.Model.SortAstWorld
 /-
 drv_sort: script lines
   slice <mode> <keys> | <nvals>
@@ -15,6 +16,11 @@ drv_sort: script lines
   multi <kcap> <vcap> | <mode> <keys> <nv> | …     several calls, outputs joined by ` | `
   unique <kind> <elems>
     output:  r <returned slice> b <backing array after the call>   or `panic`
+
+With the argument `ast` the `slice` and `multi` lines are answered by interpreting the MiniGoSort translations of
+maxDepth and quickSort_func (and, through their calls, doPivot_func, heapSort_func, siftDown_func, medianOfThree_func,
+insertionSort_func) that tools/srcfacts regenerated from /repo for this run (Got/Generated/AstSortxSort.lean) instead
+of the hand-written model (`Got.Model.SortAst.sliceByAst`; `diverge` = out of fuel); `unique` lines give `n/a`.
 -/
 namespace Got.Drv.Sort
 open Got.Model.Sort Got.Model.SortUnique Got.Drv
@@ -92,20 +98,27 @@ def renderSlice (n : Nat) (s : St Int Nat) : String :=
     else []
   joinSp (base ++ logPart)
 
-def runSlice (mode : String) (keys : Array Int) (nv : Nat) : String :=
+def lessOfMode (mode : String) : Option (LessFn Int Nat) :=
+  match mode.splitOn "=" with
+  | ["int"] | ["str"] | ["intb"] | ["strb"] | ["spre"] | ["ssuf"] | ["swin"] | ["smix"] =>
+    some (stdLess (fun (x y : Int) => decide (x < y)))
+  | ["f64"] | ["f32"] | ["ff"] => some (stdLess fltLt)
+  | ["vf64"] | ["vf32"] => some (stdLess (fun (x y : Int) => decide (x < y)))
+  | ["adv", sd] => sd.toNat?.map fun z => advLess (UInt64.ofNat z)
+  | ["advk", sd] => sd.toNat?.map fun z => advkLess (UInt64.ofNat z)
+  | _ => none
+
+/-- `ast = true`: interpret the translated source instead of running the model -/
+def runSlice (ast : Bool) (mode : String) (keys : Array Int) (nv : Nat) : String :=
   let vals := Array.range nv
   let n := min keys.size nv
-  let less? : Option (LessFn Int Nat) :=
-    match mode.splitOn "=" with
-    | ["int"] | ["str"] | ["intb"] | ["strb"] | ["spre"] | ["ssuf"] | ["swin"] | ["smix"] =>
-      some (stdLess (fun (x y : Int) => decide (x < y)))
-    | ["f64"] | ["f32"] | ["ff"] => some (stdLess fltLt)
-    | ["vf64"] | ["vf32"] => some (stdLess (fun (x y : Int) => decide (x < y)))
-    | ["adv", sd] => sd.toNat?.map fun z => advLess (UInt64.ofNat z)
-    | ["advk", sd] => sd.toNat?.map fun z => advkLess (UInt64.ofNat z)
-    | _ => none
-  match less? with
-  | some less => renderSlice n (sliceBy less keys vals)
+  match lessOfMode mode with
+  | some less =>
+    if ast then
+      match Got.Model.SortAst.sliceByAst (Got.Model.SortAst.driverFuel n) less keys vals with
+      | some s => renderSlice n s
+      | none => "diverge"
+    else renderSlice n (sliceBy less keys vals)
   | none => "bad-op"
 
 def runUnique (elems : Array Int) : String :=
@@ -115,7 +128,7 @@ def runUnique (elems : Array Int) : String :=
 
 /-- `multi <kcap> <vcap> | <mode> <keys> <nv> | …` : the harness reuses one backing array for all steps; the model is
     stateless, every step is an independent `sliceBy` on the step's contents -/
-def runMulti (line : String) : String :=
+def runMulti (ast : Bool) (line : String) : String :=
   match line.splitOn " | " with
   | [] => "bad-op"
   | _ :: steps =>
@@ -123,25 +136,26 @@ def runMulti (line : String) : String :=
       match words st with
       | [mode, ks, nv] =>
         match parseInts? ks, nv.toNat? with
-        | some keys, some nv => runSlice mode keys nv
+        | some keys, some nv => runSlice ast mode keys nv
         | _, _ => "bad-op"
       | _ => "bad-op")
 
-def step (_ : Unit) (line : String) : Unit × String :=
-  if line.startsWith "multi " then ((), runMulti line) else
+def step (ast : Bool) (_ : Unit) (line : String) : Unit × String :=
+  if line.startsWith "multi " then ((), runMulti ast line) else
   match words line with
   | ["slice", mode, ks, "|", nv] =>
     match parseInts? ks, nv.toNat? with
-    | some keys, some nv => ((), runSlice mode keys nv)
+    | some keys, some nv => ((), runSlice ast mode keys nv)
     | _, _ => ((), "bad-op")
   | ["unique", _, es] =>
+    if ast then ((), "n/a") else
     match parseInts? es with
     | some elems => ((), runUnique elems)
     | none => ((), "bad-op")
   | [] => ((), "")
   | _ => ((), "bad-op")
 
-def main (_args : List String) : IO Unit := do
-  lineLoop (← IO.getStdin) (← IO.getStdout) step ()
+def main (args : List String) : IO Unit := do
+  lineLoop (← IO.getStdin) (← IO.getStdout) (step (args = ["ast"])) ()
 
 end Got.Drv.Sort
